@@ -21,7 +21,7 @@
    and the v1 resolver's refinement r7. *)
 From Coq Require Import Permutation Sorted.
 From Verif Require Import Lib.Bytes StateRes.Event StateRes.Kahn StateRes.V2 StateRes.V1 StateRes.Entry
-     StateRes.SortProofs StateRes.KahnProofs StateRes.OrderProofs StateRes.ResultProofs StateRes.CmpProofs StateRes.KahnOrderProofs StateRes.V2Spec StateRes.OrderSetProofs StateRes.SplitProofs StateRes.ChainProofs StateRes.ChainCompleteProofs StateRes.AuthDiffProofs StateRes.V1Proofs.
+     StateRes.SortProofs StateRes.KahnProofs StateRes.OrderProofs StateRes.ResultProofs StateRes.CmpProofs StateRes.KahnOrderProofs StateRes.V2Spec StateRes.OrderSetProofs StateRes.SplitProofs StateRes.ChainProofs StateRes.ChainCompleteProofs StateRes.AuthDiffProofs StateRes.V1Proofs StateRes.V1Spec StateRes.V1SpecProofs StateRes.SubgraphProofs.
 
 Section C10.
   Variable allowed : event -> list event -> bool.
@@ -150,11 +150,37 @@ Theorem auth_difference_is_spec (shE : list event -> list event) (authmap confli
 Proof. intro P. apply auth_difference_new_is_spec. exact P. Qed.
 
 
-(* v1: ResolveStateConflicts picks conflicted events - every event it returns is one of the
-   conflicted events it was given, for every auth oracle. (PARTIAL with respect to
-   v1_resolves_per_spec: that the pick per key is the one 6.2 r7 prescribes is tied to the code
-   by the correspondence only.) *)
-Theorem v1_resolves_per_spec_partial allowed conflicted auth_events x :
+
+(* v2.1: the conflicted subgraph the library adds to the auth difference (path enumeration from
+   every conflicted event of every state set, DFS with the exploration path) is exactly the
+   specification's: the auth events lying on an auth path from a conflicted event of a state
+   set to a conflicted event. For an acyclic auth relation; the state-set events are the auth
+   map's events of their IDs. *)
+Theorem conflicted_subgraph_is_spec authmap conflicted sets (rank : bytes -> nat) x :
+  (forall a b, auth_step authmap a b -> (rank (e_id b) < rank (e_id a))%nat) ->
+  (forall s o y, In s sets -> In o s -> find_event (e_id o) authmap = Some y -> y = o) ->
+  (In x (complete_subgraph authmap conflicted sets) <-> spec_conflicted_subgraph authmap conflicted sets x).
+Proof. apply conflicted_subgraph_spec. Qed.
+
+(* v1 (DESIGN.md 6.2 r7): the model of ResolveStateConflicts returns exactly the list the
+   per-key specification StateRes/V1Spec.v defines - per conflicted key, in the order create,
+   power levels, join rules, third-party invites, members, the candidates oldest first by
+   (depth, SHA-1 descending), the walk that stops at the first candidate failing the auth
+   rules against the state resolved so far plus the current candidate, results of a type
+   registered only when the type is done; every other key: the newest candidate that passes
+   against the final auth state, else the oldest. Preconditions: the conflicted events are
+   distinct state events whose sort key identifies them, and (as ResolveStateConflicts
+   documents) none of the auth events sits under a conflicted key. *)
+Theorem v1_resolves_per_spec allowed conflicted auth_events :
+  NoDup (ids_of conflicted) ->
+  (forall a b, In a conflicted -> In b conflicted -> v1_cmp a b = Eq -> a = b) ->
+  (forall e, In e conflicted -> e_skey e <> None) ->
+  auth_events_unconflicted conflicted auth_events = true ->
+  v_result (resolve_v1 allowed conflicted auth_events) = spec_resolve_v1 allowed conflicted auth_events.
+Proof. apply resolve_v1_is_spec. Qed.
+
+(* and, with no precondition at all, it returns only conflicted events it was given *)
+Theorem v1_returns_conflicted_events allowed conflicted auth_events x :
   In x (v_result (resolve_v1 allowed conflicted auth_events)) -> In x conflicted.
 Proof. apply v1_picks_conflicted_events. Qed.
 
@@ -188,5 +214,7 @@ Print Assumptions mainline_order_sorted.
 Print Assumptions split_is_spec.
 Print Assumptions full_auth_chain_is_spec.
 Print Assumptions auth_difference_is_spec.
-Print Assumptions v1_resolves_per_spec_partial.
+Print Assumptions conflicted_subgraph_is_spec.
+Print Assumptions v1_resolves_per_spec.
+Print Assumptions v1_returns_conflicted_events.
 Print Assumptions result_is_a_state_map.
